@@ -44,13 +44,25 @@ def main():
 
     # ---- C++ builds from /repo's current working tree (sanitized library + harness)
     lib, exe = None, None
+    probe_stats, probe_fails = collections.Counter(), []
     if spec.get('harness'):
         if spec.get('needs_lib', True):
             lib, blog = C.build_lib()
             if lib is None:
                 broken.append({'what': 'library-build', 'name': 'sanitized build of /repo/src', 'log': blog[-3000:]})
+        # compile probes: a template instantiation the property quantifies over must compile; when it does the harness
+        # is built with the probe's define and exercises it, when it does not that is a failing "input" (component, kind)
+        probe_flags = []
+        for pr in spec.get('compile_probes', []):
+            pok, perr = C.compile_probe(pr['src'])
+            probe_stats['probe:' + pr['define'] + (':compiles' if pok else ':does_not_compile')] += 1
+            if pok:
+                probe_flags.append('-D' + pr['define'])
+            else:
+                probe_fails.append({'case': None, 'line': 'compile ' + pr['src'], 'verdict': 'fail %s %s %s' % (pr['component'], pr['kind'], perr),
+                                    'component': pr['component'], 'kind': pr['kind']})
         if lib is not None or not spec.get('needs_lib', True):
-            exe, hlog = C.build_harness(spec['harness'], lib, extra_flags=spec.get('harness_flags', ()))
+            exe, hlog = C.build_harness(spec['harness'], lib, extra_flags=tuple(spec.get('harness_flags', ())) + tuple(probe_flags))
             if exe is None:
                 broken.append({'what': 'harness-build', 'name': spec['harness'], 'log': hlog})
     if spec.get('post_build'):
@@ -93,6 +105,7 @@ def main():
     stats = collections.Counter()
     verdict_counts = collections.Counter()
     samples, fails, diffs, crashes_all = [], [], [], []
+    stats.update(probe_stats); fails += probe_fails
     n_eval = 0
     distinct = set()
     harness_done = True
